@@ -131,6 +131,8 @@ def factory(ns, nkeys=2, pre_entry=True):
                                 auth = [pubhex, pub1[1]]
                                 for thr, want in ((1, True), (2, True), (3, False)):
                                     vv = run_call(it, A.verify_signable, [env, auth, thr])
+                                    if thr == 2 and is_ret(vv):
+                                        obs.append(oblige(eng, 'one signer listed twice among the authorised keys does not verify for threshold 2', z3.Not(distinct), mk))
                                     if want and not is_ret(vv):
                                         obs.append(oblige(eng, f'two distinct authorised signers verify for threshold {thr}', distinct, mk))
                                     if not want and (is_ret(vv) or not exc_in(vv, ('SignatureError',))):
@@ -144,6 +146,23 @@ def factory(ns, nkeys=2, pre_entry=True):
                         for (k_, s_, m_), var in eng.uf_calls.get('Valid', [])[n0:]:
                             obs.append(oblige(eng, 'after an edit of the payload, verification checks signatures against the NEW canonical bytes only',
                                               z3.Not(bytes_eq(it, m_, new_msg)), mk))
+                        # ---- signing again after the edit replaces the signer's stale entry by a signature over the new payload
+                        rs = run_call(it, S.sign_signable, [env, sks[0]])
+                        from pysym.models import getitem as _gi
+                        from pysym.interp import Frame as _Fr
+                        try:
+                            ent2 = _gi(it, _Fr(it, factory, {}, None), env['signatures'], pubhex) if is_ret(rs) else None
+                        except Exception:
+                            ent2 = None
+                        sig2 = None
+                        if isinstance(ent2, (dict, SDict)):
+                            sl2 = ent2.slots if isinstance(ent2, SDict) else [[True, k, v] for k, v in ent2.items()]
+                            sig2 = next((v for p_, k, v in sl2 if k == 'signature'), None)
+                        S2 = getattr(sig2, 'hex_of', None)
+                        if S2 is None or getattr(S2, 'kind', None) != 'sign':
+                            obs.append(oblige(eng, 'signing again after an edit of the payload stores a fresh signature', z3.Not(json_eq(it, p, p2)), mk))
+                        else:
+                            obs.append(oblige(eng, 'signing again after an edit of the payload signs the NEW payload', z3.Not(bytes_eq(it, S2.msg, new_msg)), mk))
             m = path_model(eng)
             if m is None:
                 return None
@@ -300,11 +319,20 @@ def concrete(case):
                         P.append(f'{k} authorised signers do not verify for threshold {thr}: {oc["cls"]}')
                     if thr > k and (oc['kind'] == 'ret' or 'SignatureError' not in oc['mro']):
                         P.append(f'{k} signers verify for threshold {thr}')
+            if len(sks) >= 2 and refpub[0] == refpub[1]:
+                oc = CC.outcome_of(A.verify_signable, env, [refpub[0], refpub[0]], 2)
+                if oc['kind'] == 'ret':
+                    P.append('one signer listed twice among the authorised keys verifies for threshold 2')
             if C.canonserialize(payload2) != C.canonserialize(payload):
                 env['signed'] = payload2
                 oc = CC.outcome_of(A.verify_signable, env, [refpub[0]], 1)
                 if oc['kind'] == 'ret':
                     P.append('after the payload was changed, the old signature still counts')
+                S.sign_signable(env, sks[0])
+                if env['signatures'].get(refpub[0]) != {'signature': ref[0].sign(C.canonserialize(payload2)).hex()}:
+                    P.append('signing again after an edit of the payload does not store a signature over the new payload')
+                elif CC.outcome_of(A.verify_signable, env, [refpub[0]], 1)['kind'] != 'ret':
+                    P.append('re-signed envelope does not verify')
         except Exception as e:
             P.append(f'unexpected {type(e).__name__}: {e}')
     res['outcome'] = {'kind': 'ret'}
